@@ -374,9 +374,19 @@ void fcppt::container::tree::object<T>::swap(object &_other)
 
   swap(this->value_, _other.value_);
 
-  std::swap(this->parent_, _other.parent_);
-
+  // The nodes stay where they are (their parents do not change), only their
+  // contents are exchanged: the exchanged children have to be re-parented.
   this->children_.swap(_other.children_);
+
+  for (auto &child : this->children_)
+  {
+    child.parent_ = this;
+  }
+
+  for (auto &child : _other.children_)
+  {
+    child.parent_ = &_other;
+  }
 }
 
 template <typename T>
